@@ -17,6 +17,8 @@
  * under the License.
  */
 
+#include <algorithm>
+
 namespace datasketches {
 
 template<typename Array, typename Policy, typename Allocator>
@@ -161,12 +163,22 @@ compact_array_tuple_sketch<Array, Allocator> compact_array_tuple_sketch<Array, A
     const auto num_entries = read<uint32_t>(is);
     read<uint32_t>(is); // unused
     if (!is.good()) throw std::runtime_error("error reading from std::istream");
-    entries.reserve(num_entries);
-    std::vector<uint64_t, AllocU64> keys(num_entries, 0, allocator);
-    read(is, keys.data(), num_entries * sizeof(uint64_t));
+    // the stream length is unknown: allocate as the data arrives (doubling, never beyond the announced number)
+    // so that a corrupted count cannot force a huge allocation before any entry has been read
+    const size_t min_chunk = 1024;
+    std::vector<uint64_t, AllocU64> keys(allocator);
+    for (size_t done = 0; done < num_entries; done = keys.size()) {
+      const size_t new_size = std::min<size_t>(num_entries, done + std::max(done, min_chunk));
+      keys.reserve(new_size);
+      keys.resize(new_size, 0);
+      read(is, keys.data() + done, (new_size - done) * sizeof(uint64_t));
+      if (!is.good()) throw std::runtime_error("error reading from std::istream");
+    }
     for (size_t i = 0; i < num_entries; ++i) {
+      if (i == entries.capacity()) entries.reserve(std::min<size_t>(num_entries, i + std::max(i, min_chunk)));
       Array summary(num_values, 0, allocator);
       read(is, summary.data(), num_values * sizeof(typename Array::value_type));
+      if (!is.good()) throw std::runtime_error("error reading from std::istream");
       entries.push_back(Entry(keys[i], std::move(summary)));
     }
   }
